@@ -79,7 +79,7 @@ func replayFetchCheckout(c *core.Ctx, lfsBin string, b *behaviour, idx int) (*co
 				return nil, fmt.Errorf("publish: %s", r.All())
 			}
 		case "serverloses":
-			w.Srv.Delete(repoName, w.Hex(s.str("oid")))
+			w.ServerDelete(s.str("oid"))
 		case "clone":
 			env := []string{}
 			if skip, _ := s["skip"].(bool); skip {
